@@ -72,8 +72,32 @@ class _Stub(object):
         self.__dict__.update(kw)
 
 
+class _SnapEvent(object):
+    """connected_event wrapper: set() snapshots what a waiter (Connection.factory) would read at that very moment"""
+    def __init__(self, conn):
+        import threading
+        self._e = threading.Event()
+        self._conn = conn
+        self.snaps = []
+
+    def set(self):
+        self.snaps.append(err_tag(self._conn.last_error))
+        self._e.set()
+
+    def is_set(self):
+        return self._e.is_set()
+
+    def wait(self, timeout=None):
+        return self._e.wait(timeout)
+
+    def clear(self):
+        self._e.clear()
+
+
 def _init(self, **kw):
     C.Connection.__init__(self, 'verif-host', **kw)
+    self.connected_event = _SnapEvent(self)
+    self._snaps_seen = 0
     self.sent = []
     self._send_options_message()
 
@@ -289,7 +313,10 @@ def err_tag(e):
 def observe(conn, nsent_before):
     new = [parse_sent(b, conn.protocol_version) for b in conn.sent[nsent_before:]]
     name = lambda f: getattr(f, 'codec_name', 'unknown') if f is not None else None
+    snaps = conn.connected_event.snaps[conn._snaps_seen:]
+    conn._snaps_seen = len(conn.connected_event.snaps)
     return {
+        'wake_snaps': snaps,      # class of last_error at each connected_event.set() of this step
         'sent': new,
         'compressor': name(conn.compressor), 'decompressor': name(conn.decompressor),
         'checksumming': bool(conn._is_checksumming_enabled),
